@@ -55,7 +55,29 @@ def frag(rng):
                        b'{"n":{"m":[1,[2,[3]]]}}', b"123456"])
 
 
+def gen_encoder_op(rng):
+    """payloads the code builds with encoding/json (traces, errors, slow SQLs, connect): any bytes in the strings, every mixture
+    of trace kinds, more entries than fit"""
+    k = rng.random()
+    if k < 0.35:
+        n = rng.choice([0, 1, 2, 3, 5, 25])
+        kinds = rng.choice(["r", "f", "s", "rs", "rf", "fs", "rfs", "rrss"])
+        items = ["%s:%d:%s" % (rng.choice(kinds), rng.randint(1, 5000), hx(rbytes(rng) or b"t")) for _ in range(n)]
+        return "json traces %s %s" % (hx(rbytes(rng, True) or b"run"), ",".join(items) or "-")
+    if k < 0.6:
+        n = rng.choice([0, 1, 2, 19, 20, 21, 30])
+        items = ["%d:%s" % (rng.randint(0, 9), hx(rng.choice([b'[1,"msg","cls",{}]', b'{"e":"\u2028"}', frag(rng)]))) for _ in range(n)]
+        return "json errors %s %s" % (hx(rbytes(rng, True) or b"run"), ",".join(items) or "-")
+    if k < 0.8:
+        n = rng.choice([0, 1, 3, 10, 11, 15])
+        items = ["%d:%d:%s" % (rng.randint(1, 14), rng.randint(1, 9999), hx(rbytes(rng) or b"q")) for _ in range(n)]
+        return "json slowsqls %s" % (",".join(items) or "-")
+    return "json connect name=%s host=%s dh=%s ver=%s lang=%s dk=%s" % tuple(hx(rbytes(rng)) for _ in range(6))
+
+
 def gen_op(rng):
+    if rng.random() < 0.2:
+        return gen_encoder_op(rng)
     k = rng.random()
     if k < 0.35:
         return "json str %s" % hx(rbytes(rng))
